@@ -406,8 +406,18 @@ func defectKey(p *Pair, c *Case, v *Verdict) string {
 		}
 	}
 	if v.Cat == "arabic" {
+		// the defect puts a below mark above (y offsets differ) or changes the
+		// mark order; a pure x-offset difference is something else
+		onlyX := kind == "offset"
+		if onlyX {
+			for i := range v.Go {
+				if v.Go[i].YOff != v.C[i].YOff {
+					onlyX = false
+				}
+			}
+		}
 		for _, r := range c.Item() {
-			if arabicMCM220[r] {
+			if arabicMCM220[r] && !onlyX {
 				return KeyArabicMCM
 			}
 		}
